@@ -135,6 +135,9 @@ if __name__ == "__main__":
     elif cmd == "import4":
         for pid in sys.argv[2:]:
             do_import(pid, ("G", "H"), base="/tmp/wt4")
+    elif cmd == "import5":
+        for pid in sys.argv[2:]:
+            do_import(pid, ("I", "J"), base="/tmp/wt5")
     elif cmd == "eval":
         ids = sys.argv[2:] or sorted(os.path.basename(os.path.dirname(m)) for m in glob.glob(f"{SEEDED}/*/meta.json"))
         do_eval(ids)
